@@ -6,7 +6,7 @@ correspondence streams (implementation vs Lean driver) and the property oracles 
 """
 import fcntl, hashlib, json, os, re, subprocess, sys, time
 
-ROOT = '/verif'
+ROOT = os.path.dirname(os.path.dirname(os.path.abspath(__file__)))
 REPO = os.environ.get('VERIF_REPO', '/repo')
 LEAN = f'{ROOT}/lean'
 BUILD = f'{ROOT}/build'
